@@ -32,6 +32,26 @@ func VerifHarness_C11_Native() {
 	verifAssert(err == nil, "writing succeeds")
 	_, err = ps.WriteRawTo(&raw)
 	verifAssert(err == nil, "writing succeeds")
+	// the header values of the symbolic counterexample (any uint32 pair) on the real writers/readers: the header is independent of the sections
+	verifLoad()
+	if _, ok := verifDraws["depth"]; ok {
+		hd := *ps
+		hd.TreeDepth, hd.BatchSize = verifNondetU32("depth"), verifNondetU32("batch")
+		for _, rawf := range []bool{false, true} {
+			var b bytes.Buffer
+			if rawf {
+				_, err = hd.WriteRawTo(&b)
+			} else {
+				_, err = hd.WriteTo(&b)
+			}
+			verifAssert(err == nil, "writing succeeds")
+			var q ProvingSystem
+			_, err = q.UnsafeReadFrom(bytes.NewReader(b.Bytes()))
+			verifAssert(err == nil, "reading back what was written succeeds")
+			verifAssert(err != nil || q.TreeDepth == hd.TreeDepth, "tree depth is restored")
+			verifAssert(err != nil || q.BatchSize == hd.BatchSize, "batch size is restored")
+		}
+	}
 	dir, _ := os.MkdirTemp("", "verifc11")
 	defer os.RemoveAll(dir)
 	for name, data := range map[string][]byte{"compressed": comp.Bytes(), "raw": raw.Bytes()} {
